@@ -26,12 +26,13 @@ type clientKeeperT = clientkeeper.Keeper
 
 // Finding keys of C13 (see /verif/proposed_fixes/C13-*.md) and the C19 keys C13 depends on.
 const (
-	keyEthConsType  = "eth-consensus-client-type"
-	keyTMIterKeys   = "tm-iteration-keys-not-exported"
-	keyZeroHeight   = "zero-height-client-export-invalid"
-	keyC19ConsIter  = "slash-height-client-keeper-iterate-consensus-states"
-	keyC19Clients   = "slash-height-client-keeper-iterate-clients"
-	keyC19TMProcess = "slash-height-tm-iterate-processed-time"
+	keyEthConsType   = "eth-consensus-client-type"
+	keyTMIterKeys    = "tm-iteration-keys-not-exported"
+	keyZeroHeight    = "zero-height-client-export-invalid"
+	keyTSSZeroHeight = "tss-consensus-state-at-zero-height"
+	keyC19ConsIter   = "slash-height-client-keeper-iterate-consensus-states"
+	keyC19Clients    = "slash-height-client-keeper-iterate-clients"
+	keyC19TMProcess  = "slash-height-tm-iterate-processed-time"
 )
 
 var moduleNames = []string{host.ModuleName, aggregatetypes.ModuleName, rvestingtypes.ModuleName}
